@@ -565,6 +565,44 @@ Proof.
     eapply front_post_core; [exact FP|reflexivity|]. intros y Hy. cbn [app]. right. exact Hy.
 Qed.
 
+(* d_triggershutdown (run first in the keyboard-interrupt branch) keeps the scheduler kind, the
+   channel states and the re-queue budget; with TK: pool, books, collection, and no crash report *)
+Definition KP (d d' : dstate) : Prop :=
+  requeues (d_sched d') = requeues (d_sched d) /\ (forall m, d_closed d' m = d_closed d m) /\
+  d_requeue d' = d_requeue d.
+
+Lemma kp_node_shutdown n d d' o r : d_node_shutdown n d = (d', o, r) -> KP d d'.
+Proof.
+  intros H. pose proof (cl_node_shutdown d_nt d_set_nt n d_nt_set _ _ _ _ H) as C.
+  destruct (node_shutdown_frame _ _ _ _ _ _ _ H) as [->|(v & ->)].
+  - split; [reflexivity|]. split; [intros m; reflexivity|reflexivity].
+  - split; [|split; [exact C|reflexivity]].
+    unfold d_set_nt. cbn [d_sched d_set_sched]. destruct (d_sched d); reflexivity.
+Qed.
+
+Lemma kp_mfor_shutdown l : forall d d' o r, mfor l d_node_shutdown d = (d', o, r) -> KP d d'.
+Proof.
+  induction l as [|x l IH]; intros d d' o r H; cbn [mfor] in H.
+  - inversion H; subst. split; [reflexivity|]. split; [intros m; reflexivity|reflexivity].
+  - apply DSessionProofs.mbind_inv in H. destruct H as [(d1 & o1 & [] & o2 & H1 & H2 & ->)|(e & H1 & ->)].
+    + destruct (kp_node_shutdown _ _ _ _ _ H1) as (A1 & A2 & A3).
+      destruct (IH _ _ _ _ H2) as (B1 & B2 & B3).
+      split; [congruence|]. split; [intros m; rewrite B2; apply A2|congruence].
+    + eapply kp_node_shutdown; eassumption.
+Qed.
+
+Lemma kp_triggershutdown d d' o r : d_triggershutdown d = (d', o, r) -> KP d d'.
+Proof.
+  unfold d_triggershutdown. intros H.
+  apply DSessionProofs.mbind_inv in H. destruct H as [(d0 & o0 & dd & oR & H0 & H & ->)|(e & H0 & _)]; [|inversion H0].
+  unfold get in H0. inversion H0; subst. clear H0.
+  destruct (d_shuttingdown dd).
+  - inversion H; subst. split; [reflexivity|]. split; [intros m; reflexivity|reflexivity].
+  - apply DSessionProofs.mbind_inv in H. destruct H as [(d1 & o1 & [] & o2 & H1 & H2 & ->)|(e & H1 & _)]; [|inversion H1].
+    unfold put in H1. inversion H1; subst. clear H1.
+    exact (kp_mfor_shutdown _ _ _ _ _ H2).
+Qed.
+
 Lemma handle_front ev d d' o r t k :
   d_handle ev d = (d', o, r) -> 0 < d_requeue d -> requeues (d_sched d) = true ->
   In (OHook (HCrashReport t k)) o ->
@@ -579,8 +617,17 @@ Proof.
       apply DSessionProofs.mbind_inv in H. destruct H as [(d1 & o1 & [] & o2 & H1 & H2 & ->)|(e & H1 & _)].
       2:{ unfold mbind, get, put in H1. inversion H1. }
       unfold mbind, get, put in H1. inversion H1; subst. clear H1. cbn [app] in Hin.
-      destruct (errordown_front n (d_set_shouldstop d true) _ _ _ _ _ H2 Hq Hk Hin) as (_ & nt1 & C & FP).
-      exists nt1. split; [exact C|]. eapply front_post_core; [exact FP|reflexivity|]. intros y Hy. cbn [app]. right. exact Hy.
+      apply DSessionProofs.mbind_inv in H2. destruct H2 as [(d3 & o3 & [] & o4 & H3 & H4 & ->)|(e & H3 & ->)].
+      2:{ exfalso. eapply no_cr_in; [exact (proj2 (tk_triggershutdown _ _ _ _ H3))|exact Hin]. }
+      destruct (tk_triggershutdown _ _ _ _ H3) as (_ & NC).
+      destruct (kp_triggershutdown _ _ _ _ H3) as (K1 & K2 & K3).
+      cbn [d_sched d_set_shouldstop d_requeue] in K1, K3.
+      apply in_app_or in Hin. destruct Hin as [Hin|Hin]; [exfalso; eapply no_cr_in; eassumption|].
+      assert (Hq3 : 0 < d_requeue d3) by (rewrite K3; exact Hq).
+      assert (Hk3 : requeues (d_sched d3) = true) by (rewrite K1; exact Hk).
+      destruct (errordown_front n d3 _ _ _ _ _ H4 Hq3 Hk3 Hin) as (_ & nt1 & C & FP).
+      exists nt1. split; [intros m; rewrite C; apply K2|].
+      eapply front_post_core; [exact FP|reflexivity|]. intros y Hy. cbn [app]. right. apply in_or_app. right. exact Hy.
     + cbn [d_handle] in H. destruct (errordown_front _ _ _ _ _ _ _ H Hq Hk Hin) as (_ & X). exact X.
   - exfalso. destruct (quiet_counts _ _ _ _ _ (quiet_handle ev Ed) H) as (_ & _ & Z).
     exact (count_cr_notin _ _ _ Z Hin).
